@@ -1,5 +1,5 @@
 SPECIFICATION Spec
-CONSTANTS Growth = 2 Mode = "bytes" MaxBits = 8 Wide = FALSE
+CONSTANTS Growth = 2 Mode = "bytes" MaxBits = 8 Wide = FALSE Lean = FALSE
 INVARIANT RoundTrip
 INVARIANT LengthInBLS
 INVARIANT WholeBytes
